@@ -55,6 +55,7 @@ class Engine:
         self.fork_log = []
         self.active = False
         self.exp_underflow = False
+        self.input_hints = {}      # name -> (lo, hi): ranges for counterexample guessing
         self.exp_monotone = False
         self.fact_ids = set()
         self.in_fact_stub = 0
